@@ -16,6 +16,8 @@
 // that `lib.rs` needs no extra line.
 #[path = "c08_io.rs"]
 pub mod io;
+#[path = "c08_wide.rs"]
+mod wide;
 
 use self::io::{
     new_runtime, run_schedule, ConstSource, NotifyPos, Place, ReadLabel, RunOutcome, Schedule, SourceData, Step,
@@ -582,7 +584,7 @@ fn check_reference(case: &Case, info: &SourceInfo, out: &[u8], stats: &mut RefSt
 
 //------------ schedule generators ---------------------------------------------------------
 
-use Step::{Buffering as BUF, Deliver as D, DropSender as X, Grant as G, Notify as N, Settle as S, Unlimit as U};
+use Step::{Buffering as BUF, Deliver as D, DropSender as X, Grant as G, Notify as N, Settle as S, Unlimit as U, Vectored as VEC};
 
 fn sched(steps: Vec<Step>) -> Schedule {
     Schedule { credit: None, settle_first: true, steps }
@@ -719,6 +721,30 @@ fn class_g(len: usize, full: bool) -> Vec<(&'static str, Schedule)> {
     v
 }
 
+/// (h): the connection's socket reports `is_write_vectored()` and takes a
+/// vectored write as one write that may stop anywhere, also inside the first
+/// slice. Capacities walk through the whole response so that a short write
+/// ends at every offset of every PDU.
+fn class_h(len: usize, out_len: usize, full: bool) -> Vec<(&'static str, Schedule)> {
+    let mut v = Vec::new();
+    v.push(("h0:vectored,one-piece", sched(vec![VEC, D(len), S, N, S])));
+    v.push(("h0:vectored+buffering,one-piece", sched(vec![VEC, BUF, D(len), S, N, S])));
+    let step = if full { 1 } else { 5 };
+    for cap in (0..=out_len + 1).step_by(step) {
+        v.push(("h1:vectored,blocked,drain-all", Schedule { credit: Some(cap), settle_first: true, steps: vec![VEC, D(len), S, U, S] }));
+        if cap % 3 == 0 || full {
+            v.push((
+                "h2:vectored,blocked,drain-in-pieces",
+                Schedule { credit: Some(cap), settle_first: true, steps: vec![VEC, D(len), S, G(3), S, N, S, G(11), S, G(1), S, U, S] },
+            ));
+        }
+        if cap % 4 == 0 {
+            v.push(("h3:vectored+buffering,blocked,drain-all", Schedule { credit: Some(cap), settle_first: true, steps: vec![VEC, BUF, D(len), S, U, S] }));
+        }
+    }
+    v
+}
+
 /// (f): random schedule.
 fn random_schedule(rng: &mut Rng, len: usize) -> Schedule {
     let credit = if rng.chance(2, 5) { Some(rng.below(130) as usize) } else { None };
@@ -729,6 +755,9 @@ fn random_schedule(rng: &mut Rng, len: usize) -> Schedule {
     let mut steps = Vec::new();
     if rng.chance(1, 6) {
         steps.push(BUF);
+    }
+    if rng.chance(1, 5) {
+        steps.push(VEC);
     }
     let mut off = 0usize;
     let mut guard = 0;
@@ -1224,6 +1253,7 @@ pub fn run(ctx: &mut Ctx) {
             }
         }
         finish(m, references.len() as u64);
+        wide::run(ctx);
         return;
     }
     // ---- which streams
@@ -1285,7 +1315,10 @@ pub fn run(ctx: &mut Ctx) {
             Unit::E => {
                 m.all(case, &reference, class_e(len, reference.len(), full));
             }
-            Unit::G => m.all(case, &reference, class_g(len, full)),
+            Unit::G => {
+                m.all(case, &reference, class_g(len, full));
+                m.all(case, &reference, class_h(len, reference.len(), full));
+            }
             Unit::F(j) => {
                 let mut rng = Rng::derive(seed, &["C08", "schedule"], &[*j]);
                 for _ in 0..f_per_unit {
@@ -1296,6 +1329,7 @@ pub fn run(ctx: &mut Ctx) {
         }
     }
     finish(m, references.len() as u64);
+    wide::run(ctx);
 }
 
 fn finish(m: Monitor<'_>, reference_runs: u64) {
